@@ -14,7 +14,7 @@ import (
 func init() {
 	register(&PropSpec{ID: "C12", Level: "other", Run: runC12,
 		Explanation: "Decides, for every block a decoder can produce, on every path of the first-party decode closure (functions reachable from IO.Read/DecodeRawEntry/DecodeRawJSONLog, FromMultihashWithIO, the jsonable ToPlain converters, the CID cast, DecryptLinks and the secretbox open functions): (R-C12.1) every dereferencing use of a pointer field of a decoder-filled struct (types discovered from the static arguments of DecodeInto/Unmarshal) is dominated by a non-nil test of that field — field access, explicit *, or a callee that dereferences it before testing; (R-C12.2) every index/slice on wire-derived bytes is proved in range; (R-C12.3) no unchecked type assertion, panic or Must* call, and no discarded error whose value results are then used without a nil test; (R-C12.4) every success return of an entry ToPlain has passed SetClock, so clock accessors on decoded entries are safe. Third-party decoders are trusted not to panic. Not covered: resource exhaustion, semantically absurd but well-typed entries.",
-		Trusted: []string{"refmt, go-ipld-cbor, go-cid, go-merkledag, encoding/json do not panic on arbitrary input"},
+		Trusted:     []string{"refmt, go-ipld-cbor, go-cid, go-merkledag, encoding/json do not panic on arbitrary input"},
 	})
 }
 
